@@ -640,8 +640,17 @@ def finish(ctx, lines, pending):
             elif kindm == 'err' or res[0] == 'err':
                 mk = val if kindm == 'err' else 'ok'
                 ik = res[1] if res[0] == 'err' else 'ok'
-                if mk != ik and 'singular' not in (mk, ik):
-                    ctx.disagree(case, {'op': 'iterfit', 'model': mk, 'impl': ik})
+                if mk != ik:
+                    # `singular` on one side only: a near-tie only when the collinearity guard of
+                    # fit_general was decided by rounding (exact guard quantity in the band, C7)
+                    c7cfg = {'fitgeom': case['spec']['fitgeom'], 'uv': np.asarray(cap['uv'], dtype=float).tolist(),
+                             'xy': np.asarray(cap['xy'], dtype=float).tolist(),
+                             'wxy': None if cap['wxy'] is None else [float(v) for v in cap['wxy']],
+                             'wuv': None if cap['wuv'] is None else [float(v) for v in cap['wuv']]}
+                    if 'singular' in (mk, ik) and C7.singular_mismatch_is_tie(c7cfg, res, kindm, val, 'F'):
+                        ctx.near_tie()
+                    else:
+                        ctx.disagree(case, {'op': 'iterfit', 'model': mk, 'impl': ik})
             else:
                 f = res[1]
                 spec = case['spec']
